@@ -273,13 +273,17 @@ def first_call_trial(ctx, ref):
            'same_input': rng.random() < 0.3}
     rc, res, err = fresh(['first', json.dumps(cfg)])
     rec.case()
+    if res is not None and 'harness_error' in res:
+        rec.count('first_call_trials_harness_error')
+        rec.note('first-call trial harness error: ' + res['harness_error'][-300:])
+        return
     if res is None:
-        if rc == 0:
+        if isinstance(rc, int) and rc < 0 or 'Fatal Python error' in err:
+            rec.monitor('first_call_init')
+            rec.violation('first-call-died', cfg, 'trial process died, exit '
+                          '%r: %s' % (rc, err[-300:]), key='died')
+        else:
             rec.count('first_call_trials_unreadable')
-            return
-        rec.monitor('first_call_init')
-        rec.violation('first-call-died', cfg, 'trial process exit %r: %s'
-                      % (rc, err[-300:]), key='died')
         return
     rec.monitor('first_call_init')
     rec.count('first_call_trials')
@@ -288,6 +292,8 @@ def first_call_trial(ctx, ref):
     rec.count('first_call_minit_checks', res['init_checks'])
     if not res['pristine_before']:
         rec.note('default instance existed before the first call')
+    if not res.get('minit_hook', True):
+        rec.note('M-INIT hook point unavailable; judged on results only')
     if res['violations']:
         rec.violation('first-call', cfg, res['violations'][0],
                       key=res['violations'][0][:40])
@@ -308,8 +314,9 @@ def first_call_trial(ctx, ref):
 def shard(ctx):
     rec, rng = ctx.rec, ctx.rng
     rc, refres, err = fresh(['ref'])
-    if refres is None:
-        rec.inconclusive_('reference process failed: %s' % err)
+    if refres is None or 'obs' not in refres:
+        rec.inconclusive_('reference process failed: %s %s' % (
+            err, (refres or {}).get('harness_error', '')[-300:]))
         return
     ref = refres['obs']
     src = grammar_texts.Source(rng)
